@@ -59,6 +59,10 @@ def gen_layout_harnesses(build, tmp):
                     oo += width(p['module'], ft)
         return out
     files, reg = {}, []
+    spec_offs = {}
+    sp = os.path.join(VERIF, 'kani', 'spec_offsets.json')
+    if os.path.exists(sp):
+        spec_offs = json.load(open(sp))
     for p in packed:
         ws = [width(p['module'], ft) for (_, ft) in p['fields']]
         if any(w is None for w in ws):
@@ -88,6 +92,18 @@ def gen_layout_harnesses(build, tmp):
             else:
                 lines.append('    assert!(zerocopy::IntoBytes::as_bytes(&{ t.%s }) == &b[%d..%d]);' % (fname, o, o + w))
             o += w
+        # the specification's offsets (kani/spec_offsets.json) against the offsets implied by the field order
+        so = spec_offs.get(p['name'])
+        if so:
+            implied = {}
+            oo = 0
+            for (fname, ft), w in zip(p['fields'], ws):
+                implied[fname] = oo
+                oo += w
+            implied['__size'] = oo
+            for k, v in so.items():
+                if implied.get(k) != v:
+                    lines.append('    assert!(false, "VERIF-SPEC-OFFSET %s.%s: field order implies offset %s, the specification says %d");' % (p['name'], k, implied.get(k), v))
         if p.get('default_zero'):
             lines.append('    let z = <%s as Default>::default();' % p['name'])
             lines.append('    assert!(zerocopy::IntoBytes::as_bytes(&z) == &[0u8; %d][..]);' % n)
